@@ -70,6 +70,7 @@ func main() {
 			extractContractMethods(exe, contracts, genDir)
 			extractFailedEvents(exe, genDir)
 			extractProofFanout(exe, genDir)
+			extractIbtpContextHeight(exe, genDir)
 		} else {
 			broken("contractMethods", "package internal/executor not loaded")
 		}
